@@ -46,7 +46,9 @@ def case(ctx, i):
             wl.abnormal_violation(r, res, "abidiff P N(P) [%s]" % what)
             continue
         if res.rc != 0 or res.stdout.strip():
-            r.violate("oracle:C06:reported:%s:%s" % ("+".join(sorted({e.kind for e in pr.expects})), wl.report_feature(res.stdout)),
+            feat = wl.report_feature(res.stdout)
+            # reports about anonymous types in compound positions form one family whatever the edit was
+            r.violate("oracle:C06:reported:%s:%s" % ("any-edit" if wl.anonymous_markers(res.stdout) else "+".join(sorted({e.kind for e in pr.expects})), feat),
                       "neutral edit reported (exit %s, %d bytes of report) for %s" % (res.rc, len(res.stdout), what), run=res.brief())
     for e in pr.expects:
         r.add("rewrite_kinds", e.kind)
